@@ -2,7 +2,7 @@
 EXTENDS Macro
 Steps == { St("i4", "NONE", 0), St("ld", "ARG", 0), St("ld", "ARG", 1), St("ld", "LIT", 7), St("ld", "OP", 0), St("w12", "ARG", 0),
            St("br", "ARG", 0), St("bre", "ARG", 0), St("mv", "REG", 0), St("mvp", "OP", 0), St("mvp", "REG", 0), St("lda", "OP", 0), St("lda", "ARG", 0), St("ldx", "OP", 0), St("ld", "REG", 0), St("ld", "ARG2X", 0) }
-Pats == {"num", "reg", "ind", "num2", "none", "empty", "regpp", "indn"}
+Pats == {"num", "reg", "ind", "num2", "none", "empty", "regpp", "indn", "defn", "idx"}
 V2s == {"none", "num", "reg", "any"}      \* here "none" = there is no second variant
-Invs == {"lit", "fwd", "back", "reg", "ind", "lit2", "bare", "sum", "regpp", "indn"}
+Invs == {"lit", "fwd", "back", "reg", "ind", "lit2", "bare", "sum", "regpp", "indn", "defn", "idx"}
 =============================================================================
